@@ -33,7 +33,9 @@ type optsScenario struct {
 	Proto string    `json:"proto"`
 	Kind  string    `json:"kind"`
 	Panic *panicSc  `json:"panic"`
-	Flip  bool      `json:"flip"` // every group is a WithOptions (else: the side-specific constructors at even depth)
+	// Grouping: which constructor builds a group -- "alt": WithClientOptions / WithHandlerOptions at even nesting depth
+	// and WithOptions at odd depth; "both": WithOptions everywhere; "side": the side-specific constructors everywhere
+	Grouping string `json:"grouping"`
 }
 
 func init() { families["opts"] = runOpts }
@@ -196,7 +198,7 @@ func panicValue(class string) any {
 }
 
 // buildOpts turns the option tree into real option values. apply events mirror the fold.
-func buildOpts(nodes []optNode, side string, log *layerLog, rl *recoverLog, rec *Rec, depth int) (copts []connect.ClientOption, hopts []connect.HandlerOption) {
+func buildOpts(nodes []optNode, side string, log *layerLog, rl *recoverLog, rec *Rec, depth int, grouping string) (copts []connect.ClientOption, hopts []connect.HandlerOption) {
 	for _, n := range nodes {
 		if n.T == "ics" {
 			var names []string
@@ -235,8 +237,8 @@ func buildOpts(nodes []optNode, side string, log *layerLog, rl *recoverLog, rec 
 		}
 		var sub []optNode
 		_ = json.Unmarshal(n.V, &sub)
-		c, h := buildOpts(sub, side, log, rl, rec, depth+1)
-		if depth%2 == 0 && depth < 1<<20 {
+		c, h := buildOpts(sub, side, log, rl, rec, depth+1, grouping)
+		if grouping == "side" || (grouping != "both" && depth%2 == 0) {
 			copts = append(copts, connect.WithClientOptions(c...))
 			hopts = append(hopts, connect.WithHandlerOptions(h...))
 		} else {
@@ -284,11 +286,7 @@ func runOpts(raw json.RawMessage, seed int64, rec *Rec) {
 	rec.Add(E("reset", "tid", s.Tid, "sc", scm))
 	log := &layerLog{}
 	rl := &recoverLog{}
-	depth0 := 0
-	if s.Flip {
-		depth0 = 1 << 20 // WithOptions at every depth
-	}
-	copts, hopts := buildOpts(s.Opts, s.Side, log, rl, rec, depth0)
+	copts, hopts := buildOpts(s.Opts, s.Side, log, rl, rec, 0, s.Grouping)
 	emitApply(s.Opts, rec)
 	if s.Proto == "" {
 		s.Proto = "connect"
@@ -320,10 +318,23 @@ func runOpts(raw json.RawMessage, seed int64, rec *Rec) {
 	// option values are reusable: generated constructors apply the same values once per procedure. Build a
 	// first, unused client and handler from them and observe the second application.
 	if s.Tid%2 == 0 {
-		_ = connect.NewClient[BV, BV](&memTransport{h: http.NotFoundHandler(), major: 2}, "http://verif.test"+e2eProc, copts...)
+		first, firstH := copts, hopts
+		if s.Tid%4 == 0 {
+			// ... and that earlier construction had something else in front of the shared values: an interceptor "Z"
+			// and a recovery function of its own, neither of which has any business in the observed call
+			z := connect.WithInterceptors(&namedInterceptor{name: "Z", log: log, side: s.Side})
+			first = append([]connect.ClientOption{z}, copts...)
+			firstH = append([]connect.HandlerOption{z, connect.WithRecover(func(context.Context, connect.Spec, http.Header, any) error {
+				rl.mu.Lock()
+				rl.calls += 100
+				rl.mu.Unlock()
+				return connect.NewError(connect.CodeUnknown, errors.New("another service's recovery function"))
+			})}, hopts...)
+		}
+		_ = connect.NewClient[BV, BV](&memTransport{h: http.NotFoundHandler(), major: 2}, "http://verif.test"+e2eProc, first...)
 		_ = connect.NewUnaryHandler("/verif.v1.Svc/Other", func(context.Context, *connect.Request[BV]) (*connect.Response[BV], error) {
 			return connect.NewResponse(&BV{}), nil
-		}, hopts...)
+		}, firstH...)
 	}
 	var h *connect.Handler
 	switch kind {
